@@ -11,13 +11,18 @@ def pub(*fields):
     return [{'rule': 'R2', 'find': f + ':', 'replace': 'pub ' + f + ':'} for f in fields]
 
 
-# the whole entry-API match of `update`, with the key and the two generation expressions captured (kept verbatim
-# at the call site, so a mutant that changes one of them is seen by the verifier)
+# R8 (`&mut` alias inlined): the HashMap entry-API `match` of `update`, BY SHAPE. The entry API hands out a `&mut` alias of
+# the slot of the map; it is re-spelled with the map operations Verus can read (vstd's HashMap model):
+#   match M.entry(K) { Entry::Vacant(e) => { e.insert(V); } Entry::Occupied(mut e) => match (e.get_mut(), P) { ARMS } }
+#   ==> if !M.contains_key(&K) { M.insert(K, V); } else { let mut __slot = M.remove(&K).unwrap(); match (&mut __slot, P) { ARMS } M.insert(K, __slot); }
+# K, V, P and the ARMS (patterns AND bodies: which dictionary is appended to which, what is stored) stay verbatim under proof.
+# Arms may hold one level of braces. Trusted: the equivalence of the two spellings (NOTES.md).
 ENTRY_MATCH = (r'match\s+self\.changes\.entry\(([^()]*)\)\s*\{\s*'
-               r'Entry::Vacant\(e\)\s*=>\s*\{\s*e\.insert\(\(primitive,\s*([^()]*?)\)\);\s*\}\s*,?\s*'
-               r'Entry::Occupied\(mut e\)\s*=>\s*match\s*\(e\.get_mut\(\),\s*primitive\)\s*\{\s*'
-               r'\(\(Primitive::Dictionary\(ref mut dict\),\s*_\),\s*Primitive::Dictionary\(new\)\)\s*=>\s*\{\s*dict\.append\(new\);\s*\}\s*,?\s*'
-               r'\(old,\s*new\)\s*=>\s*\{\s*\*old\s*=\s*\(new,\s*([^()]*?)\);\s*\}\s*,?\s*\}\s*,?\s*\}')
+               r'Entry::Vacant\((\w+)\)\s*=>\s*\{\s*\2\.insert\(([^;]*)\);\s*\}\s*,?\s*'
+               r'Entry::Occupied\(mut\s+(\w+)\)\s*=>\s*match\s*\(\4\.get_mut\(\),\s*(\w+)\)\s*\{'
+               r'((?:[^{}]*\{[^{}]*\}\s*,?\s*)+)\}\s*,?\s*\}')
+ENTRY_REPL = (r'if !self.changes.contains_key(&\1) { self.changes.insert(\1, \3); } else { '
+              r'let mut __slot = self.changes.remove(&\1).unwrap(); match (&mut __slot, \5) {\6} self.changes.insert(\1, __slot); }')
 
 
 def update_contract(ref, idx_len):
@@ -85,7 +90,9 @@ UNIT = {
   'XRefTable::get': {'kind': 'fn', 'file': XREF, 'container': XT, 'name': 'get', 'props': ['C09'],
      'ensures': [('get_in_range', 'id < self.entries@.len() ==> r == Ok::<XRef, PdfError>(self.entries@[id as int])'),
                  ('get_out_of_range', 'id >= self.entries@.len() ==> r is Err')],
-     'rewrites': [{'rule': 'R5', 'find': 'Some(&entry) => Ok(entry)', 'replace': 'Some(entry_) => Ok(*entry_)'}]},
+     # R5 by shape, count '*' (same as units xreftable / resolve)
+     'rewrites': [{'rule': 'R5', 'regex': r'Some\(&(\w+)\)\s*=>\s*\{', 'replace': r'Some(\1_) => { let \1 = *\1_;', 'count': '*'},
+                  {'rule': 'R5', 'regex': r'Some\(&(\w+)\)\s*=>\s*([^,{}]*),', 'replace': r'Some(\1_) => { let \1 = *\1_; \2 },', 'count': '*'}]},
   'XRefTable::set': {'kind': 'fn', 'file': XREF, 'container': XT, 'name': 'set', 'props': ['C09'],
      # call sites: Storage::save only, with ids of pending changes / of a promise just made (< len by Storage::wf)
      'requires': ['id < old(self).entries@.len()'],
@@ -118,7 +125,7 @@ UNIT = {
      'rewrites': [
         {'where': 'sig', 'rule': 'R2', 'find': 'old: PlainRef', 'replace': 'old_: PlainRef'},
         {'rule': 'R2', 'find': 'use std::collections::hash_map::Entry;', 'replace': ''},
-        {'rule': 'R7', 'regex': ENTRY_MATCH, 'replace': r'hoist_entry_merge(&mut self.changes, \1, primitive, \2, \3);'},
+        {'rule': 'R8', 'regex': ENTRY_MATCH, 'replace': ENTRY_REPL},
         {'rule': 'R2', 'find': 'old', 'replace': 'old_', 'count': '*'},   # parameter rename, every use
      ]},
   'Storage::promise': {'kind': 'fn', 'file': FILE, 'container': UPD, 'name': 'promise', 'props': ['C09'],
